@@ -65,6 +65,7 @@ def data_alignment(run, funcs):
                ('compute_face_integrals_sym_with_data', 'convex_cell::ConvexCell::compute_face_integrals_sym', 'face')]
     data = [z3.Int('data%d' % k) for k in range(3)]
     n_ok = 0
+    native_done = []
     for meth, inner, kind in methods:
         name = engine.find_fn(funcs, r'voronoi::<impl at [^>]*>::%s$' % meth)
         for present in [(a, b, c) for a in (0, 1) for b in (0, 1) for c in (0, 1)]:
@@ -99,12 +100,48 @@ def data_alignment(run, funcs):
                         ok = ok and (k == ek)
                         conds.append(to_z3(d) == data[ek])
                 if not ok:
-                    run.suspect.append('C14 %s[present=%r, data len %d]: results %r are not the constructed cells in index order %r' % (meth, present, ndata, [g[0] for g in got], exp))
+                    pl = {'kind': 'withdata_alignment'}
+                    bad = check_withdata_native(pl) if not native_done else None
+                    native_done.append(1)
+                    if bad:
+                        run.violation('C14 %s: %s' % (meth, bad), engine.save_replay('C14', pl))
+                    elif not run.violations:
+                        run.suspect.append('C14 %s[present=%r, data len %d]: results %r are not the constructed cells in index order %r' % (meth, present, ndata, [g[0] for g in got], exp))
                     continue
                 vv, m = run.prove('C14 %s[present=%r, %d data]: cell k is initialised with data[k]' % (meth, present, ndata), pcs(st2), z3.Not(z3.And(conds + [z3.BoolVal(True)])),
-                                  timeout=10, cross=False)
+                                  timeout=10, cross=False, on_sat='caller')
+                if vv == 'sat' and not native_done:
+                    native_done.append(1)
+                    pl = {'kind': 'withdata_alignment'}
+                    bad = check_withdata_native(pl)
+                    if bad:
+                        run.violation('C14 %s: %s' % (meth, bad), engine.save_replay('C14', pl))
+                    else:
+                        run.suspect.append('C14 %s[present=%r, %d data]: data is mis-aligned in the encoding; the native pairing scenarios show no difference' % (meth, present, ndata))
                 n_ok += 1
     run.bound('data alignment: 3 cells, all 8 presence patterns, data slices of length 3 and 2, symbolic data values')
+
+
+def check_withdata_native(p, profile='debug'):
+    """data entry k belongs to generator k: with a data slice of length m only constructed cells among the generators 0..m may be
+    integrated - observed with Data = () through which cells are reached at all, for several masks"""
+    for prof in ('debug', 'release'):
+        for ndata, mask in ((2, [0, 1, 1, 1]), (3, [1, 0, 0, 1, 1]), (1, [0, 0, 1]), (4, [1, 1, 0, 1, 1, 1]), (3, [1, 1, 1])):
+            o = engine.native(['withdata_alignment %d %d %s' % (ndata, len(mask), ' '.join(map(str, mask)))], prof)[0]
+            if o[0] != 'ok':
+                return 'native scenario panicked: ' + ' '.join(o[1:10])
+            parts = ' '.join(o[1:]).split('|')
+            exp = [k for k in range(min(ndata, len(mask))) if mask[k]]
+            nc = int(parts[0])
+            lf = [int(x) for x in parts[1].split()]
+            ls = [int(x) for x in parts[2].split()]
+            if nc != len(exp):
+                return 'mask %r, %d data entries: compute_cell_integrals_with_data returns %d integrals, the constructed cells among generators 0..%d are %r [%s build]' % (mask, ndata, nc, ndata, exp, prof)
+            if lf != exp:
+                return 'mask %r, %d data entries: compute_face_integrals_with_data integrates cells %r, the data entries belong to cells %r [%s build]' % (mask, ndata, lf, exp, prof)
+            if any(x not in exp for x in ls):
+                return 'mask %r, %d data entries: compute_face_integrals_sym_with_data integrates cells %r, the data entries belong to cells %r [%s build]' % (mask, ndata, ls, exp, prof)
+    return None
 
 
 def base_triangles(run, funcs):
@@ -229,4 +266,8 @@ def replay(path):
         p = subprocess.run(['cargo', 'check', '--offline', '--target-dir', tgt], cwd=os.path.join(engine.VERIF, 'downstream', d['crate']), env=engine.ENV, capture_output=True, text=True)
         print(p.stderr[-800:])
         return 1 if p.returncode != 0 else 0
+    if d['kind'] == 'withdata_alignment':
+        bad = check_withdata_native(d)
+        print(bad)
+        return 1 if bad else 0
     return BR.replay(d)
